@@ -58,9 +58,12 @@ type endpoint struct {
 	maxFlight     int
 	successes     int
 	fastSuccesses int
-	viol          []string
-	pushes        int
-	statuses      map[int]int
+	// phaseBound, when set, is the exact window the connection has settled on
+	// (computed from the replies sent so far at a quiescent point)
+	phaseBound int
+	viol       []string
+	pushes     int
+	statuses   map[int]int
 }
 
 func (ep *endpoint) v(sig, f string, a ...any) {
@@ -162,6 +165,9 @@ func (ep *endpoint) RoundTrip(req *http.Request) (*http.Response, error) {
 	if ep.inFlight > bound {
 		ep.v("window-exceeded", "%d pushes in flight although only %d fast success replies were sent so far (the window starts at 1 and grows by one per fast success)", ep.inFlight, ep.fastSuccesses)
 	}
+	if ep.phaseBound > 0 && ep.inFlight > ep.phaseBound {
+		ep.v("window-not-narrowed", "%d pushes in flight although the failures answered before had narrowed the window to %d (it was at its widest %d)", ep.inFlight, ep.phaseBound, 1+ep.fastSuccesses)
+	}
 	ep.statuses[status]++
 	ep.mu.Unlock()
 
@@ -226,7 +232,7 @@ func TestC19(t *testing.T) {
 			id := must(e.Client.Subscription.Query().Where(subscription.Name(sub)).OnlyID(e.Ctx))
 			ep := &endpoint{sub: sub, msgs: map[string]*pushMsg{}, statuses: map[int]int{}}
 			// script kinds
-			kind := []string{"all-fast-success", "all-slow-success", "alternating", "failure-burst", "every-status", "ramp", "grow-then-fail", "grow-then-slow"}[i%8]
+			kind := []string{"all-fast-success", "all-slow-success", "alternating", "failure-burst", "every-status", "ramp", "grow-then-fail", "grow-then-slow", "narrow-then-backlog"}[i%9]
 			nm := 4 + r.Intn(12)
 			if kind == "ramp" {
 				nm = 60 + r.Intn(60)
@@ -239,7 +245,7 @@ func TestC19(t *testing.T) {
 				// walk the combinations deterministically; the first ones make the window
 				// exactly 10 x (number of simultaneous failures) when the failures arrive
 				combos := [][3]int{{9, 1, 0}, {19, 2, 0}, {29, 3, 0}, {9, 1, 2}, {10, 1, 0}, {8, 1, 0}, {19, 1, 0}, {9, 2, 0}, {4, 1, 1}, {29, 2, 1}, {19, 3, 0}, {11, 1, 0}}
-				c := combos[(i/8)%len(combos)]
+				c := combos[(i/9)%len(combos)]
 				grow, failing, extra = c[0], c[1], c[2]
 				nm = grow + failing + extra
 			}
@@ -251,9 +257,21 @@ func TestC19(t *testing.T) {
 				// it to 0 or below without the floor), then more fast ones: everything
 				// must still be pushed and acknowledged
 				combos := [][3]int{{1, 2, 3}, {2, 3, 4}, {2, 6, 3}, {4, 5, 5}, {4, 12, 4}, {9, 10, 6}, {9, 25, 3}, {3, 4, 0}}
-				c := combos[(i/8)%len(combos)]
+				c := combos[(i/9)%len(combos)]
 				grow, slowN, extra = c[0], c[1], c[2]
 				nm = grow + slowN + extra
+			}
+			backlog := 0
+			if kind == "narrow-then-backlog" {
+				// grow the window with fast successes, let 1-3 pushes fail (each failure
+				// narrows it by 10, floor 1) and be retried successfully, then - at a
+				// quiescent point, when the window is known exactly - publish a backlog
+				// that is answered slowly: no more pushes than the narrowed window may be
+				// in flight together
+				combos := [][3]int{{9, 1, 6}, {19, 2, 8}, {29, 3, 8}, {9, 2, 6}, {14, 1, 8}, {4, 1, 5}}
+				c := combos[(i/9)%len(combos)]
+				grow, failing, backlog = c[0], c[1], c[2]
+				nm = grow + failing + backlog
 			}
 			req := &pubsubpb.PublishRequest{Topic: topic}
 			var ms []*pushMsg
@@ -282,6 +300,13 @@ func TestC19(t *testing.T) {
 							m.script = append(m.script, []int{0, 500, 503}[r.Intn(3)])
 							m.slow = append(m.slow, false)
 						}
+					}
+				case "narrow-then-backlog":
+					switch {
+					case k >= grow && k < grow+failing:
+						m.script, m.slow = []int{[]int{0, 500, 503}[r.Intn(3)]}, []bool{false}
+					case k >= grow+failing:
+						m.script, m.slow = []int{204}, []bool{true}
 					}
 				case "grow-then-slow":
 					if k >= grow && k < grow+slowN {
@@ -325,7 +350,37 @@ func TestC19(t *testing.T) {
 						break
 					}
 				}
-				publish(grow, nm)
+				if backlog > 0 {
+					publish(grow, grow+failing)
+					for w := 0; w < 600; w++ {
+						time.Sleep(100 * time.Millisecond)
+						rig.Quiesce()
+						ep.mu.Lock()
+						all := true
+						for _, m := range ms[grow : grow+failing] {
+							if !m.acked {
+								all = false
+							}
+						}
+						ep.mu.Unlock()
+						if all {
+							break
+						}
+					}
+					time.Sleep(200 * time.Millisecond)
+					rig.Quiesce()
+					wexp := 1 + grow - 10*failing
+					if wexp < 1 {
+						wexp = 1
+					}
+					wexp += failing // the successful retries
+					ep.mu.Lock()
+					ep.phaseBound = wexp
+					ep.mu.Unlock()
+					publish(grow+failing, nm)
+				} else {
+					publish(grow, nm)
+				}
 			} else {
 				publish(0, nm)
 			}
@@ -402,7 +457,7 @@ func TestC19(t *testing.T) {
 				sts = append(sts, s)
 			}
 			sort.Ints(sts)
-			col.Case(evd.FP(kind, nm, sts, ep.pushes), ep.pushes > nm || kind == "ramp" || kind == "all-slow-success" || kind == "grow-then-slow")
+			col.Case(evd.FP(kind, nm, sts, ep.pushes), ep.pushes > nm || kind == "ramp" || kind == "all-slow-success" || kind == "grow-then-slow" || kind == "narrow-then-backlog")
 			if i < 3 {
 				col.Sample(map[string]any{"script": kind, "messages": nm, "pushes": ep.pushes, "max_in_flight": ep.maxFlight, "final_statuses": sts})
 			}
